@@ -12,7 +12,7 @@ PROPERTY = "C01"
 RULE = ("maximisers: every composition (n+,n-,n0) with N<=11 (quick) / N<=15 (thorough); its delta-maximising arrangement "
         "(brute force over all 3^N patterns) and 2 seed-chosen arrangements, each spelled with random residues, are fed to "
         "the real get_kappa/get_delta/get_deltaMax. patterns: every +/-/0 pattern with N<=8 (quick) / N<=10 (thorough). "
-        "hyp: sequences of all composition classes up to 100 (quick) / 300 (thorough) residues incl. single-minority-charge "
+        "few-charges: 1-3 charged residues among up to 40/80 neutral ones, two arrangements each. hyp: sequences of all composition classes up to 100 (quick) / 300 (thorough) residues incl. single-minority-charge "
         "homopolymers. long-neighbours: 2-4 compositions of one length 101..160 differing by one residue, analysed one after another in the same process. Oracle on the returned k,d,m: (a) k==-1 <=> m==0; (b) m!=0 => k==1.0 if 1<d/m<1.1 else d/m; "
         "(c) k==-1 or 0<=k<=1; fidelity d==exact delta, m==documented-family maximum. Non-trivial: m>0, N>=5 and a "
         "charged residue; distinct by sequence.")
@@ -108,6 +108,18 @@ def check_maximiser(ctx, case):
         check_seq(ctx, sub)
 
 
+def few_charge_cases(tier, seed):
+    """1-3 charged residues (every split into + and -) among 0..40 / 0..80 neutral ones: two arrangements each."""
+    rnd = random.Random(seed + 23)
+    for Z in range(0, 41 if tier == "quick" else 81):
+        for c in (1, 2, 3):
+            for P in range(c + 1):
+                M = c - P
+                if Z >= 18 or P == 0 or M == 0 or Z == 0 or Z <= 8:
+                    for _ in range(2):
+                        yield {"seq": util.spell(util.arrange(P, M, Z, rnd), rnd), "enumerated": True}
+
+
 def pattern_cases(tier, seed):
     hi = 8 if tier == "quick" else 10
     for p, s in util.spelled_patterns(1, hi, seed):
@@ -148,6 +160,8 @@ def parts(tier):
         Part("maximisers", "enum", check=check_maximiser, cases=maximiser_cases, exhaustive=True,
              shards={"quick": 8, "thorough": 16}),
         Part("enum-patterns", "enum", check=check_seq, cases=pattern_cases, exhaustive=True,
+             shards={"quick": 16, "thorough": 16}),
+        Part("enum-few-charges", "enum", check=check_seq, cases=few_charge_cases, exhaustive=False,
              shards={"quick": 16, "thorough": 16}),
         Part("hyp-sequences", "hyp", check=check_seq,
              strategy=lambda t: hyp_case(100 if t == "quick" else 300),
